@@ -607,9 +607,14 @@ pub fn execute(sc: &ProbeScenario, sh: &Shared) -> Value {
                     sh.note(PH_CALL_LIVE, 0, ri as u64, 0);
                     unsafe { vn_probe_call(target as *const (), regs.as_ptr(), out.as_mut_ptr()) };
                     calls += 1;
-                    for x in out.iter() {
-                        digest = digest.rotate_left(7) ^ *x;
+                    // (slots 10 and 19 are stack pointers: where the stack is depends on the size of
+                    // the environment and of argv, so only their difference goes into the digest)
+                    for (k, x) in out.iter().enumerate() {
+                        if k != 10 && k != 19 {
+                            digest = digest.rotate_left(7) ^ *x;
+                        }
                     }
+                    digest = digest.rotate_left(7) ^ out[10].wrapping_sub(out[19]);
                     let names = ["rbx", "rbp", "r12", "r13", "r14", "r15"];
                     let prop: &[&str] = if is_bool { &["C10"] } else { &["C13"] };
                     for k in 0..6 {
